@@ -10,18 +10,18 @@ type StackN<const N: usize, const S: usize> = any_vec::mem::StackN<N, S>;
 
 #[cfg(feature = "lib_alloc")]
 anyvec_pbt::configs! {
-    Tr0_Multi:    Tr0,    Multi, dyn Cloneable, G_LAYOUT;
+    Tr0_Multi:    Tr0,    Multi, dyn Cloneable, G_LAYOUT | G_FAULT;
     Tr12_Multi:   Tr12,   Multi, dyn Cloneable, G_LAYOUT;
     Pl1_Multi:    Pl1,    Multi, dyn Cloneable, G_LAYOUT | G_CORE;
-    Tr8_Heap:     Tr8,    Heap,   dyn Cloneable, G_BACKEND | G_CORE | G_RAW;
+    Tr8_Heap:     Tr8,    Heap,   dyn Cloneable, G_BACKEND | G_CORE | G_RAW | G_FAULT;
     Tr160_Heap:   Tr160,  Heap,   dyn Cloneable, G_RAW;
-    Tr3_Guard:    Tr3,    GuardB, dyn Cloneable, G_BACKEND;
+    Tr3_Guard:    Tr3,    GuardB, dyn Cloneable, G_BACKEND | G_FAULT;
     Tr1_Stack:    Tr1,    Stack<6>,       dyn Cloneable, G_BACKEND | G_STACK;
     Tr8_Heap_Send:  Tr8, Heap, dyn Send,                    G_CONSTRAINT | G_RAW;
 }
 
 #[cfg(not(feature = "lib_alloc"))]
 anyvec_pbt::configs! {
-    Tr8_Stack:    Tr8,    Stack<40>,      dyn Cloneable, G_BACKEND | G_STACK;
+    Tr8_Stack:    Tr8,    Stack<40>,      dyn Cloneable, G_BACKEND | G_STACK | G_FAULT;
     Tr24_StackN:  Tr24,   StackN<3, 72>,  dyn Cloneable, G_BACKEND | G_STACK;
 }
